@@ -636,7 +636,7 @@ class C06(Spec):
                   'balanced on its own: recomputed on every run), C06_default_replacement_balanced, C06_definitions_fixed (in a non-zero safe mode '
                   'a document cannot change the quote, replacement or block definitions: frame theorem), C06_blocks_escape_or_filter (every '
                   'generated block definition either escapes specials or passes its content through the HTML filter), C06_list_wrapped (whatever '
-                  'a list renders is enclosed in the open and close tag of its definition). Balance of a whole render -- that the pieces nest -- is '
+                  'a list renders is enclosed in the open and close tag of its definition), C06_quote_tags_nested with C06_quotes_pass_nested (for every table of quote definitions, text and fuel, the fragments of the quotes pass are properly nested: every opening quote tag is followed, after a properly nested run, by the closing tag of the same definition). Balance of a whole render -- that the pieces nest -- is '
                   'not proved; it is decided by the balanced-tag oracle over the implementation and the comparison on full HTML.')
     rule = ('token-soup documents at the 12 HTML-filtering modes, and <-free token soup at mode 0 without definitions; tag stack over '
             'the tokenised output; non-trivial = output contains a tag other than <p>')
